@@ -220,6 +220,7 @@ def run(ctx):
     risky = [tuple(c) for c in corpus.get("risky", [])] + risky_sort_cases(rng.fork(), quick)
     qreds = [tuple(c) for c in corpus.get("qutil_red", [])] + qutil_red_cases(rng.fork(), quick)
     aps = [tuple(c) for c in corpus.get("ap", [])] + ap_cases(rng.fork(), quick)
+    hyp_evals = hyp_entered = 0
     hang_budget = 3 if quick else 8
     hangs_seen = []          # known-class cases where model (OutOfFuel) and implementation (watchdog) agree
 
@@ -266,6 +267,16 @@ def run(ctx):
         else:
             scs = sorts[:npin][ci % 2::2] + [c for c in sorts[npin:] if c[2] <= 10001 or c[0] == "qt"][ci % 4::4]
         mo_s = model([model_sort_cmd(c, ns, cacheline) for c in scs])
+        # the named hypothesis of the sortedness theorem (strided_partition_post) evaluated on the model for every input
+        # whose top-level call enters the parallel partition loop
+        hyp = [c for c in scs if (c[0] in ("qutil", "aligned") and c[2] > 2 * LOOP_CHUNK + 1) or (c[0] == "qt" and ns >= 3 and c[2] > 10000)]
+        hyp_cmds = ["wallspost %s %d %d %d %d %d" % (c[0], c[1], c[2], c[3], ns if c[0] == "qt" else cacheline, 0 if c[0] == "qt" else LOOP_CHUNK) for c in hyp]
+        for c, ho in zip(hyp, model(hyp_cmds)):
+            hyp_evals += 1
+            if ho.endswith(" entered"):
+                hyp_entered += 1
+            if not ho.startswith("p ok"):
+                mism.append(("partition-post-hypothesis", dict(desc_sort(c, ns, nw), model=ho)))
         term = [(c, mo) for c, mo in zip(scs, mo_s) if mo != "s outoffuel"]
         for c, mo in zip(scs, mo_s):
             if mo == "s outoffuel":      # a generated "safe" case the model says diverges: treat like the risky ones
@@ -368,11 +379,14 @@ def run(ctx):
                         "(random, sorted, reversed, constant, two values, extremes, 16 values) x types (aligned_t, saligned_t, double) x operators",
                    traces_validated_against_impl=evals, input_distribution=hist, configs=configs,
                    correspondence_mismatches=len(mism), known_class_hangs_reproduced=len(hangs_seen),
+                   partition_post_hypothesis_evaluated=hyp_evals, partition_post_hypothesis_loop_entered=hyp_entered,
                    refuted_on_current_tree=[])
     ctx.assumptions += ["the sort used below the parallel cutoff (libc qsort, drf_qsort_dbl/_algt) is a correct sort (Section hypothesis; "
                         "compared with the real code on every run)",
                         "inputs contain no NaN and no -0.0; worker counts < 65536",
-                        "partition threads of one partitioner call touch disjoint index sets (model runs them in index order)"]
+                        "partition threads of one partitioner call touch disjoint index sets (model runs them in index order)",
+                        "sortedness/termination above the partition threshold: named hypothesis strided_partition_post (Util/SortCorrect.v), "
+                        "evaluated on the extracted model for every generated input that enters the parallel partition loop"]
     broken = bool(mism) or not pr["ok"]
     unknown = [(w_, c) for (s, w_, c) in ofail if s is None]
     if not broken:
